@@ -261,6 +261,37 @@
                         // the default delimiters are plain text under this configuration (skip sets that reuse '{')
                         if !d[0].starts_with('{') { let plain = format!("{t0}{{{{ x }}}}{{% y %}}{{# z #}}{t1}"); let _ = plain; }
                     } } }
+                    // line statements and line comments behave like the corresponding tag occupying the whole line
+                    for (ls, lc) in [(Some("#"), Some("##")), (None, Some("##")), (Some("%%"), None), (Some("# "), Some("//"))] {
+                        if d[4].starts_with('#') || d[0].starts_with('{') && ls == Some("#") { continue; }
+                        let mut b = SyntaxConfig::builder();
+                        b.block_delimiters(d[0], d[1]).variable_delimiters(d[2], d[3]).comment_delimiters(d[4], d[5]);
+                        if let Some(p) = ls { b.line_statement_prefix(p); }
+                        if let Some(p) = lc { b.line_comment_prefix(p); }
+                        let mut env2 = Environment::new();
+                        env2.set_syntax(b.build().unwrap());
+                        env2.set_trim_blocks(trim); env2.set_lstrip_blocks(lstrip); env2.set_keep_trailing_newline(keep);
+                        let v = |e: &str| format!("{} {e} {}", d[2], d[3]);
+                        if let Some(p) = lc {
+                            let src = format!("a\n{p} a line comment {}\nb {} {p} trailing comment\nc", v("x"), v("x"));
+                            let got = env2.render_str(&src, crate::context! { x => "V" }).unwrap_or_else(|e| panic!("{src:?}: {e}"));
+                            // (how much surrounding whitespace a trailing line comment takes with it is not fixed by the
+                            // property; the comment text must vanish and the other lines must survive in order)
+                            assert!(!got.contains("comment") && !got.contains("##") && !got.contains("//"), "line comment text leaked under {ls:?}/{lc:?}: {src:?} rendered {got:?}");
+                            let squeezed: String = got.chars().filter(|c| !c.is_whitespace()).collect();
+                            assert!(squeezed == "abVc", "line comments under {ls:?}/{lc:?}: {src:?} rendered {got:?}");
+                        }
+                        if let Some(p) = ls {
+                            let src = format!("a\n{p} for i in [1, 2]\n{}\n{p} endfor\nz", v("i"));
+                            let got = env2.render_str(&src, crate::context! { x => "V" }).unwrap_or_else(|e| panic!("{src:?}: {e}"));
+                            let tag = format!("a\n{} for i in [1, 2] {}\n{}\n{} endfor {}\nz", d[0], d[1], v("i"), d[0], d[1]);
+                            let mut env3 = Environment::new();
+                            env3.set_syntax(SyntaxConfig::builder().block_delimiters(d[0], d[1]).variable_delimiters(d[2], d[3]).comment_delimiters(d[4], d[5]).build().unwrap());
+                            env3.set_trim_blocks(true); env3.set_lstrip_blocks(lstrip); env3.set_keep_trailing_newline(keep);
+                            let expect = env3.render_str(&tag, crate::context! { x => "V" }).unwrap();
+                            assert!(got == expect, "line statement {src:?} rendered {got:?}, the equivalent whole-line tags give {expect:?}");
+                        }
+                    }
                     if !d[0].starts_with('{') {
                         let got = env.render_str("a {{ x }} {% if %} {# c #} b", ()).unwrap();
                         assert!(got == "a {{ x }} {% if %} {# c #} b", "default-looking text was interpreted under custom delimiters: {got:?}");
